@@ -70,6 +70,10 @@ func Account(r *ev.Run, b *Built, cnt ...map[string]int64) {
 		r.Count("runs-aborted", 1)
 	}
 	PanicsToViolations(r, b.C, b.Spec)
+	if len(b.C.Panics) > 0 && r.Prop != "C11" && r.Counter("runs-aborted-by-library-panic") == 1 {
+		// a library panic is C11's violation; a run it cut short says nothing about this property
+		r.Inconclusive("the library panicked in at least one run (" + b.C.Panics[0].API + ": " + b.C.Panics[0].Value + "); see C11")
+	}
 }
 
 // SampleRun stores a compact rendering of a run as an evidence sample.
